@@ -12,7 +12,7 @@ From Coq Require Import Floats.SpecFloat.
 Require Import Bits.Lib.Result Bits.Lib.Bytes Bits.Lib.CompactSize.
 Require Import Bits.Spec.Bip143 Bits.Spec.Sighash.
 Require Import Bits.Model.SendValue Bits.Model.Send.
-Require Bits.Model.Bip143 Bits.Proofs.Bip143 Bits.Proofs.Tx Bits.Model.Tx.
+Require Bits.Model.Bip143 Bits.Proofs.Bip143 Bits.Proofs.Tx Bits.Model.Tx Bits.Proofs.SendValue Bits.Proofs.Send Bits.Proofs.CompactSize.
 Import ListNotations.
 Import Coq.Init.Byte.
 Local Open Scope Z_scope.
@@ -21,38 +21,40 @@ Local Open Scope result_scope.
 Module PB := Bits.Proofs.Bip143.
 Module PT := Bits.Proofs.Tx.
 
+Lemma Some_inj {A} (x y : A) : Some x = Some y -> x = y.
+Proof. congruence. Qed.
+
 (* ---------------------------------------------------------------- segwit kinds *)
 Section Segwit.
   Variable sha256 : bytes -> bytes.
   Variable sats : utxo -> Z.
 
-  Lemma segwit_msgs_from (t : tx) script f : forall (unspents : list utxo) (k : nat) msgs,
+  (* what the code signs, exactly: for EVERY reported unspent x (selected or not) the BIP143 pre-image of input number
+     x.vout (the output index of the utxo!) of the transaction with version 1 and locktime 0 *)
+  Theorem segwit_message_actual (t : tx) script f : forall (unspents : list utxo) msgs,
     wf_tx t -> tx_version t = 1 -> tx_locktime t = 0 -> standard_flag f ->
     Z.of_nat (length script) < 2 ^ 64 ->
-    (k + length unspents <= length (tx_ins t))%nat ->
-    (forall i x, nth_error unspents i = Some x ->
-                 u_vout x = Z.of_nat (k + i) /\ sat_of_btc (u_amount x) = Ok (sats x) /\ 0 <= sats x < 2 ^ 64) ->
+    (forall x, In x unspents ->
+               0 <= u_vout x < Z.of_nat (length (tx_ins t)) /\
+               sat_of_btc (u_amount x) = Ok (sats x) /\ 0 <= sats x < 2 ^ 64) ->
     segwit_msgs sha256 (map ser_txin (tx_ins t)) (map ser_txout (tx_outs t)) (ser_script script) (Some f) unspents
       = Ok msgs ->
     forall i x, nth_error unspents i = Some x ->
-      exists m, nth_error msgs i = Some m /\ preimage sha256 t (k + i) (sats x) script f = Some m.
+      exists m, nth_error msgs i = Some m /\ preimage sha256 t (Z.to_nat (u_vout x)) (sats x) script f = Some m.
   Proof.
-    induction unspents as [|u rest IH]; intros k msgs Hwf Hv Hl Hf Hs Hlen Hall H i x Hi.
+    induction unspents as [|u rest IH]; intros msgs Hwf Hv Hl Hf Hs Hall H i x Hi.
     - destruct i; discriminate.
     - unfold segwit_msgs in H. apply PT.mapM_cons_inv in H as (m0 & ms & H0 & Hrest & ->).
       destruct i as [|i].
       + cbn [nth_error] in Hi. injection Hi as <-.
-        destruct (Hall 0%nat u eq_refl) as (Ev & Es & Rs). rewrite Nat.add_0_r in *.
-        rewrite Es in H0. cbn [bind] in H0. rewrite Ev in H0.
-        destruct (PB.bip143_exact sha256 t k (sats u) script f Hwf) as (pm & Pp & _ & _ & _ & _ & W);
-          [cbn [length] in Hlen; lia | exact Rs | exact Hs | exact Hf |].
+        destruct (Hall u (or_introl eq_refl)) as (Ev & Es & Rs).
+        rewrite Es in H0. cbn [bind] in H0.
+        destruct (PB.bip143_exact sha256 t (Z.to_nat (u_vout u)) (sats u) script f Hwf) as (pm & Pp & _ & _ & _ & _ & W);
+          [lia | exact Rs | exact Hs | exact Hf |].
+        rewrite Z2Nat.id in W by lia.
         rewrite Hv, Hl in W. rewrite W in H0. injection H0 as <-.
         exists pm. split; [reflexivity | exact Pp].
-      + cbn [nth_error] in Hi |- *.
-        replace (k + S i)%nat with (S k + i)%nat by lia.
-        apply (IH (S k) ms); auto.
-        * cbn [length] in Hlen. lia.
-        * intros j y Hj. replace (S k + j)%nat with (k + S j)%nat by lia. apply (Hall (S j) y). exact Hj.
+      + cbn [nth_error] in Hi |- *. apply (IH ms); auto. intros y Hy. apply Hall. right; exact Hy.
   Qed.
 
   (* message_is_sighash, segwit kinds, on the sub-domain where the code is right *)
@@ -69,8 +71,113 @@ Section Segwit.
       exists m, nth_error msgs j = Some m /\ preimage sha256 t j (sats x) script f = Some m.
   Proof.
     intros Hwf Hv Hl Hf Hs Hlen Hall H j x Hj.
-    apply (segwit_msgs_from t script f unspents 0 msgs Hwf Hv Hl Hf Hs); auto. lia.
+    destruct (segwit_message_actual t script f unspents msgs Hwf Hv Hl Hf Hs) with (i := j) (x := x) as (m & Em & Pm); auto.
+    - intros y Hy. apply In_nth_error in Hy as (q & Hq). destruct (Hall q y Hq) as (Ev & Es & Rs).
+      split; [|split; assumption]. rewrite Ev.
+      assert (q < length unspents)%nat by (apply nth_error_Some; congruence). lia.
+    - exists m. split; [exact Em|]. destruct (Hall j x Hj) as (Ev & _). rewrite Ev, Nat2Z.id in Pm. exact Pm.
   Qed.
+
+  (* ---- why the messages are wrong outside that sub-domain (for every transaction, not only for a witness) ---- *)
+  Definition with_defaults (t : tx) : tx := mk_tx 1 (tx_ins t) (tx_outs t) 0.     (* what witness_message is told *)
+
+  Lemma preimage_version_neq (t t' : tx) i i' amount amount' script script' f f' m m' :
+    u32le (tx_version t) <> u32le (tx_version t') ->
+    preimage sha256 t i amount script f = Some m -> preimage sha256 t' i' amount' script' f' = Some m' -> m <> m'.
+  Proof.
+    unfold preimage. intros Hv. destruct (nth_error (tx_ins t) i) as [inp|]; [|discriminate].
+    destruct (nth_error (tx_ins t') i') as [inp'|]; [|discriminate].
+    intros H H' E. apply Some_inj in H, H'. subst m m'.
+    apply (f_equal (firstn 4)) in E. unfold u32le in *.
+    rewrite !PB.firstn_app_len in E by apply to_le_length. contradiction.
+  Qed.
+
+  Lemma preimage_locktime_neq (t t' : tx) i amount script f m m' :
+    tx_ins t = tx_ins t' -> tx_outs t = tx_outs t' -> tx_version t = tx_version t' ->
+    u32le (tx_locktime t) <> u32le (tx_locktime t') ->
+    preimage sha256 t i amount script f = Some m -> preimage sha256 t' i amount script f = Some m' -> m <> m'.
+  Proof.
+    unfold preimage, hash_prevouts, hash_sequence, hash_outputs. intros Ei Eo Ev Hl. rewrite <- Ei, <- Eo, <- Ev.
+    destruct (nth_error (tx_ins t) i) as [inp|]; [|discriminate].
+    intros H H' E. apply Some_inj in H, H'. subst m m'.
+    do 8 apply app_inv_head in E. apply (f_equal (firstn 4)) in E. unfold u32le in *.
+    rewrite !PB.firstn_app_len in E by apply to_le_length. contradiction.
+  Qed.
+
+  Lemma preimage_index_neq (t : tx) i j a b amount amount' script f m m' :
+    nth_error (tx_ins t) i = Some a -> nth_error (tx_ins t) j = Some b ->
+    length (ti_txid a) = 32%nat -> length (ti_txid b) = 32%nat -> ser_outpoint a <> ser_outpoint b ->
+    preimage sha256 t i amount script f = Some m -> preimage sha256 t j amount' script f = Some m' -> m <> m'.
+  Proof.
+    unfold preimage. intros Ea Eb La Lb Hne. rewrite Ea, Eb.
+    intros H H' E. apply Some_inj in H, H'. subst m m'.
+    do 3 apply app_inv_head in E. apply (f_equal (firstn 36)) in E.
+    rewrite !PB.firstn_app_len in E by (unfold ser_outpoint, u32le; rewrite app_length, to_le_length; lia).
+    contradiction.
+  Qed.
+  (* ---- the three segwit findings, for EVERY transaction of the class (not only a witness) ---- *)
+  Section Wrong.
+    Variable t : tx.                         (* the transaction send_tx returns (its structured form) *)
+    Variables (script : bytes) (f : Z) (unspents : list utxo) (msgs : list bytes).
+    Hypothesis Hwf : wf_tx t.
+    Hypothesis Hf : standard_flag f.
+    Hypothesis Hs : Z.of_nat (length script) < 2 ^ 64.
+    Hypothesis Hall : forall x, In x unspents ->
+                                0 <= u_vout x < Z.of_nat (length (tx_ins t)) /\
+                                sat_of_btc (u_amount x) = Ok (sats x) /\ 0 <= sats x < 2 ^ 64.
+    (* witness_message is called without version / locktime: it is told [with_defaults t] *)
+    Hypothesis Hmsgs :
+      segwit_msgs sha256 (map ser_txin (tx_ins t)) (map ser_txout (tx_outs t)) (ser_script script) (Some f) unspents
+      = Ok msgs.
+
+    Lemma wf_with_defaults : wf_tx (with_defaults t).
+    Proof. destruct Hwf as (_ & _ & Hi & Ho). unfold wf_tx, with_defaults. cbn. repeat split; auto; lia. Qed.
+
+    Lemma actual_message i x m :
+      nth_error unspents i = Some x -> nth_error msgs i = Some m ->
+      preimage sha256 (with_defaults t) (Z.to_nat (u_vout x)) (sats x) script f = Some m.
+    Proof.
+      intros Hi Hm.
+      destruct (segwit_message_actual (with_defaults t) script f unspents msgs wf_with_defaults eq_refl eq_refl Hf Hs Hall Hmsgs i x Hi)
+        as (m1 & E1 & P1).
+      rewrite Hm in E1. injection E1 as <-. exact P1.
+    Qed.
+
+    (* version <> 1: NO message is the consensus pre-image of ANY input *)
+    Theorem segwit_version_wrong i x m :
+      u32le (tx_version t) <> u32le 1 ->
+      nth_error unspents i = Some x -> nth_error msgs i = Some m ->
+      forall j amount pre, preimage sha256 t j amount script f = Some pre -> m <> pre.
+    Proof.
+      intros Hv Hi Hm j amount pre Hp. pose proof (actual_message i x m Hi Hm) as Ha.
+      apply not_eq_sym. eapply preimage_version_neq; [|exact Hp|exact Ha]. exact Hv.
+    Qed.
+
+    (* locktime <> 0: the message built for x is not the pre-image of the input it was computed for *)
+    Theorem segwit_locktime_wrong i x m :
+      tx_version t = 1 -> u32le (tx_locktime t) <> u32le 0 ->
+      nth_error unspents i = Some x -> nth_error msgs i = Some m ->
+      forall pre, preimage sha256 t (Z.to_nat (u_vout x)) (sats x) script f = Some pre -> m <> pre.
+    Proof.
+      intros Hv Hl Hi Hm pre Hp. pose proof (actual_message i x m Hi Hm) as Ha.
+      apply not_eq_sym. eapply preimage_locktime_neq; [| | | |exact Hp|exact Ha]; auto.
+    Qed.
+
+    (* output index <> position: the message placed at position i is the pre-image of ANOTHER input *)
+    Theorem segwit_vout_index_wrong i x m a b :
+      nth_error unspents i = Some x -> nth_error msgs i = Some m ->
+      nth_error (tx_ins t) i = Some a -> nth_error (tx_ins t) (Z.to_nat (u_vout x)) = Some b ->
+      ser_outpoint a <> ser_outpoint b ->                       (* distinct outpoints: in particular u_vout x <> i *)
+      forall amount pre, preimage sha256 (with_defaults t) i amount script f = Some pre -> m <> pre.
+    Proof.
+      intros Hi Hm Ea Eb Hne amount pre Hp. pose proof (actual_message i x m Hi Hm) as Ha.
+      destruct Hwf as (_ & _ & Hins & _). rewrite Forall_forall in Hins.
+      eapply (preimage_index_neq (with_defaults t)); [exact Eb|exact Ea| | | |exact Ha|exact Hp].
+      - apply Hins. eapply nth_error_In; exact Eb.
+      - apply Hins. eapply nth_error_In; exact Ea.
+      - intros E. apply Hne. symmetry. exact E.
+    Qed.
+  End Wrong.
 End Segwit.
 
 (* the p2wsh scriptCode `len(redeem_script).to_bytes(1, "big") + redeem_script` is the CompactSize-prefixed script exactly
@@ -98,23 +205,89 @@ Proof.
     try (destruct outs as [|o [|o' outs']]; try discriminate Hl); reflexivity.
 Qed.
 
-(* the hash type matters: for NONE the pre-image has no outputs, so it is NOT the whole transaction *)
-Lemma legacy_preimage_none_differs (v lt : Z) (i0 : tx_input) (o : tx_output) (outs : list tx_output) :
-  let t := mk_tx v [i0] (o :: outs) lt in
-  forall pre, legacy_preimage t 0 (ti_script i0) 2 = Some pre -> pre <> ser_legacy t ++ u32le 2.
+
+(* ---- the bytes of tx() in terms of the specification serialiser ---- *)
+Module MT := Bits.Model.Tx.
+Definition spec_in (i : MT.txin_t) : tx_input :=
+  Bits.Spec.Bip143.mk_txin (MT.ti_txid i) (MT.ti_vout i) (MT.ti_script i) (of_le (MT.ti_seq i)).
+Definition spec_out (o : MT.txout_t) : tx_output := Bits.Spec.Bip143.mk_txout (MT.to_value o) (MT.to_script o).
+
+Lemma txin_bytes_spec i : length (MT.ti_seq i) = 4%nat -> PT.txin_bytes i = ser_txin (spec_in i).
 Proof.
-  intros t pre H E. destruct i0 as [txid vout sc sq]. subst t.
-  cbv [legacy_preimage nth_error tx_ins tx_outs is_single is_none anyonecanpay] in H.
-  change (Z.land 2 31 =? SIGHASH_SINGLE) with false in H. change (Z.land 2 31 =? SIGHASH_NONE) with true in H.
-  cbn [andb orb negb] in H. change (Z.land 2 SIGHASH_ANYONECANPAY =? 0) with true in H. cbn [negb] in H.
-  injection H as <-.
-  unfold ser_legacy in E. cbn [tx_version tx_ins tx_outs tx_locktime mapi_from legacy_input Nat.eqb length map concat] in E.
-  cbn [ti_txid ti_vout ti_seq ti_script] in E.
-  rewrite <- !app_assoc in E. do 3 apply app_inv_head in E.
-  (* cs_enc 0 ++ ...  vs  cs_enc (S n) ++ ... : first bytes 00 vs non-zero *)
-  change (cs_enc (Z.of_nat 0)) with [x00] in E.
-  destruct (Bits.Proofs.CompactSize.cs_enc_first_nonzero (Z.of_nat (length (o :: outs)))) as (b & tl & Eb & Nb).
-  { cbn [length]. rewrite Nat2Z.inj_succ. split; [lia|].
-    (* lengths of lists are far below 2^64 only by assumption; avoid it: compare first bytes through cs_enc's cases *)
-    admit_placeholder. }
-Abort.
+  intros L. unfold PT.txin_bytes, ser_txin, ser_outpoint, ser_script, spec_in, u32le.
+  cbn [ti_txid ti_vout ti_script ti_seq].
+  replace (to_le 4 (of_le (MT.ti_seq i))) with (MT.ti_seq i) by (rewrite <- L; symmetry; apply to_le_of_le).
+  now rewrite <- !app_assoc.
+Qed.
+
+Lemma txout_bytes_spec o : PT.txout_bytes o = ser_txout (spec_out o).
+Proof. reflexivity. Qed.
+
+Lemma tx_bytes_spec v ins outs lt :
+  Forall (fun i => length (MT.ti_seq i) = 4%nat) ins ->
+  PT.tx_bytes false v (map PT.txin_bytes ins) (map PT.txout_bytes outs) [] lt =
+  ser_legacy (mk_tx v (map spec_in ins) (map spec_out outs) lt).
+Proof.
+  intros H. unfold PT.tx_bytes, ser_legacy. cbn [tx_version tx_ins tx_outs tx_locktime app].
+  rewrite !map_length, !map_map.
+  rewrite (map_ext_in PT.txin_bytes (fun x => ser_txin (spec_in x))).
+  2:{ intros x Hx. apply txin_bytes_spec. rewrite Forall_forall in H. now apply H. }
+  reflexivity.
+Qed.
+
+Section Legacy.
+  Variables p a n : Z.
+  Variable G : Bits.Model.Ecmath.point.
+  Variable sha256 ripemd160 : bytes -> bytes.
+  Variable scriptpubkey : bytes -> result bytes.
+
+  (* message_is_sighash, legacy kinds, on the sub-domain where the code is right: ONE selected input (any output index,
+     any version / locktime) and a hash type whose pre-image is the unmodified transaction.  The message handed to
+     bits.sig is tx_ (msg_preimage=False: sig appends the 4-byte hash type itself). *)
+  Theorem legacy_message_partial sender recipient change k frac fee version locktime total unspents u x txi tx_ ht :
+    build_unsigned p a n G sha256 ripemd160 scriptpubkey sender recipient change (Some k) frac fee total unspents = Ok u ->
+    us_selected u = [(x, txi)] ->
+    is_kind (ki_type k) [k_p2pk; k_p2pkh; k_multisig; k_p2sh] = true ->
+    MT.tx_raw (map snd (us_selected u)) (us_txouts u) version locktime [] = Ok tx_ ->
+    ht = 1 \/ ht = 0x81 \/ ((ht = 3 \/ ht = 0x83) /\ length (us_txouts u) = 1%nat) ->
+    exists sc t,
+      sc = (if is_kind (ki_type k) [k_p2pk; k_p2pkh; k_multisig] then u_spk x else ki_redeem k) /\
+      tx_ins t = [Bits.Spec.Bip143.mk_txin (rev (u_txid x)) (u_vout x) sc 0xffffffff] /\
+      tx_version t = version /\ tx_locktime t = locktime /\
+      ser_legacy t = tx_ /\
+      legacy_preimage t 0 sc ht = Some (tx_ ++ to_le 4 ht).
+  Proof.
+    intros Hb Hsel Hkind Hraw Hht.
+    apply Bits.Proofs.Send.build_inv in Hb as (ta & rs & chs & _ & _ & Hselect & _ & _ & _ & Houts).
+    apply Bits.Proofs.SendValue.select_mk_ok in Hselect. rewrite Hsel in Hselect.
+    inversion Hselect as [|? ? Hmk _]; subst. cbn [fst snd] in Hmk.
+    apply Bits.Proofs.Send.mk_txin_inv in Hmk as (ss & Hss & Rv & Rl & Etxi). cbn [fst snd] in *.
+    (* the scriptSig the loop placed *)
+    assert (Ess : ss = if is_kind (ki_type k) [k_p2pk; k_p2pkh; k_multisig] then u_spk x else ki_redeem k).
+    { unfold loop_scriptsig in Hss.
+      destruct (is_kind (ki_type k) [k_p2pk; k_p2pkh; k_multisig]) eqn:E1; [now injection Hss|].
+      destruct (is_kind (ki_type k) [k_p2sh]) eqn:E2; [now injection Hss|].
+      exfalso. unfold is_kind in *. cbn [existsb] in *.
+      repeat match goal with H : _ || _ = false |- _ => apply orb_false_iff in H as [? ?] end.
+      repeat match goal with H : bytes_eqb _ _ = false |- _ => rewrite H in Hkind end. discriminate. }
+    rewrite Hsel in Hraw. cbn [map snd] in Hraw.
+    apply PT.tx_raw_inv in Hraw as (_ & _ & _ & _ & ->).
+    set (i0 := Bits.Proofs.Send.input_of x ss) in *.
+    set (o1 := MT.mk_txout (us_to_send u - fee) rs) in *.
+    set (o2 := MT.mk_txout (us_total u - us_to_send u) chs) in *.
+    set (outs := if us_total u - us_to_send u >=? dust_limit then [o1; o2] else [o1]).
+    assert (Eouts : us_txouts u = map PT.txout_bytes outs).
+    { rewrite Houts. subst outs. destruct (us_total u - us_to_send u >=? dust_limit); reflexivity. }
+    rewrite Etxi, Eouts.
+    change [PT.txin_bytes i0] with (map PT.txin_bytes [i0]).
+    rewrite tx_bytes_spec by (constructor; [reflexivity | constructor]).
+    exists ss, (mk_tx version (map spec_in [i0]) (map spec_out outs) locktime).
+    split; [exact Ess|]. split; [reflexivity|]. split; [reflexivity|]. split; [reflexivity|]. split; [reflexivity|].
+    change (to_le 4 ht) with (u32le ht).
+    change (map spec_in [i0]) with [spec_in i0].
+    change ss with (ti_script (spec_in i0)) at 1.
+    apply legacy_preimage_one_input.
+    destruct Hht as [H|[H|[H Hl]]]; auto. right; right. split; [exact H|].
+    rewrite Eouts, !map_length in Hl. rewrite map_length. exact Hl.
+  Qed.
+End Legacy.
